@@ -20,7 +20,7 @@ ASSUMPTIONS = ['cooperative scheduling only; virtual integer time']
 
 FATES = ('live-polling', 'live-websocket', 'live-upgraded', 'rejected', 'close-packet', 'disconnect-sid', 'ws-drop', 'protocol-error',
          'vanish-silent', 'vanish-mid-poll', 'vanish-before-probe', 'vanish-after-probe', 'close-packet-ws', 'absent',
-         'close-then-request-cancelled', 'silent-before-probe', 'silent-after-probe')
+         'close-then-request-cancelled', 'silent-before-probe', 'silent-after-probe', 'vanish-then-disconnect-sid')
 LIVE = ('live-polling', 'live-websocket', 'live-upgraded')
 PI, PT = 2, 1
 
@@ -128,6 +128,14 @@ def _hygiene(fl, f0, f1, f2, order):
             elif fate == 'disconnect-sid':
                 sut.app_disconnect(cl.sid)
                 sut.settle()
+            elif fate == 'vanish-then-disconnect-sid':
+                # the client is already gone (its last poll was answered, it never polls again) when the application
+                # disconnects the session: nobody will ever collect the CLOSE packet
+                sut.app_send(cl.sid, 'flush')
+                sut.settle()
+                cl.poll = None
+                sut.app_disconnect(cl.sid)
+                sut.settle()
             elif fate == 'ws-drop':
                 cl.peer.close()
                 sut.settle()
@@ -220,8 +228,8 @@ def _hygiene(fl, f0, f1, f2, order):
         sut.close()
 
 
-@cond(quick=dict(timeout=170, parts=dict(FL=[0, 1], F0=[0, 1, 2, 3, 4, 5, 6, 7, 8, 9, 10, 11, 12, 14, 15, 16])),
-      thorough=dict(timeout=900, parts=dict(FL=[0, 1], F0=[0, 1, 2, 3, 4, 5, 6, 7, 8, 9, 10, 11, 12, 14, 15, 16])))
+@cond(quick=dict(timeout=170, parts=dict(FL=[0, 1], F0=[0, 1, 2, 3, 4, 5, 6, 7, 8, 9, 10, 11, 12, 14, 15, 16, 17])),
+      thorough=dict(timeout=900, parts=dict(FL=[0, 1], F0=[0, 1, 2, 3, 4, 5, 6, 7, 8, 9, 10, 11, 12, 14, 15, 16, 17])))
 def table_after_history(fl: int, f0: int, f1: int, f2: int, prior: bool) -> str:
     """
     pre: fl == P.FL and f0 == P.F0 and 0 <= f1 < len(FATES) and 0 <= f2 < len(FATES) and (f1 != 13 or f2 == 13)
